@@ -320,7 +320,7 @@ def load_oracle(texts):
     with parser_context(load_value_mode="yaml"):
         for t in sorted(set(texts)):
             try:
-                v = load_value(t)
+                v = load_value(t, simple_types=True)
             except get_loader_exceptions():
                 continue
             except Exception:  # noqa: BLE001
